@@ -55,12 +55,12 @@ def nearest_violations(grid, coords, max_dist, got, what):
 def check_nearest(rng, kind, max_dist):
     grid = rng.uniform(-4, 4, size=(int(rng.integers(0, 12)), 3))
     if kind == "geometry":
-        s = mk_struct(rng, int(rng.integers(1, 6)))
+        s = mk_struct(rng, int(rng.integers(1, 6)) if rng.random() < 0.5 else int(rng.integers(12, 40)))
         got = G.nearest_atom_index(grid, s, max_dist=max_dist)
         if got.shape != (len(grid),):
             return [f"nearest_atom_index(geometry) shape {got.shape}"]
         return nearest_violations(grid, s.coords, max_dist, got, f"nearest_atom_index(geometry, max_dist={max_dist})")
-    e = mk_ens(rng, int(rng.integers(1, 6)), int(rng.integers(1, 4)))
+    e = mk_ens(rng, int(rng.integers(1, 6)) if rng.random() < 0.5 else int(rng.integers(12, 40)), int(rng.integers(1, 4)))
     got = G.nearest_atom_index(grid, e, max_dist=max_dist)
     if got.shape != (e.n_conformers, len(grid)):
         return [f"nearest_atom_index(ensemble) shape {got.shape}"]
